@@ -11,7 +11,8 @@ Inductive oact :=
 | OPut (k v : bytes) (rot : bool) | ODel (k : bytes) (rot : bool)
 | OGet1 (k : bytes) | OGet2 (r : getres)
 | OScan1 (p : bytes) | OScan2 (r : list (bytes * bytes))
-| OF1 | OF2 | OC1 (some : bool) | OC2.
+| OF1 | OF2 | OC1 (some : bool) | OC2
+| OC1F. (* the compaction step hit an injected storage read fault and Compact returned the error *)
 
 (* observations of a level list: Get of every key of the alphabet, ScanPrefix of every prefix *)
 Definition reads := (list getres * list (list (bytes * bytes)))%type.
@@ -64,7 +65,7 @@ Definition to_act (o : oact) : act :=
   | OPut k v _ => APut k v | ODel k _ => ADel k
   | OGet1 k => AGet1 k | OGet2 _ => AGet2
   | OScan1 p => AScan1 p | OScan2 _ => AScan2
-  | OF1 => AF1 | OF2 => AF2 | OC1 _ => AC1 | OC2 => AC2
+  | OF1 => AF1 | OF2 => AF2 | OC1 _ => AC1 | OC2 => AC2 | OC1F => AC1F
   end.
 
 Definition obs_code (o : oact) (m : obs) : list N :=
